@@ -14,6 +14,7 @@ CONSTANTS
  DevPrefixExact = FALSE
  DevWhitelist = FALSE
  DevSqlAllowFirst = FALSE
+ DevSuperuser = FALSE
 INIT Init
 NEXT Next
 INVARIANTS C23_DenyOverrides C23_AllowIfMatched C23_DefaultOtherwise C23_AllowMonotone C23_DenyMonotone EmitInput
